@@ -22,6 +22,8 @@ From Coq Require Import ZArith List Bool Lia.
 From CSS Require Import Gen.Prelude Gen.Compositions Gen.QuotientParentShift
   Count.CompositionsSpec Count.Terms Count.Constructors Count.ConstructorsUnionProduct
   Count.ConstructorsComplement Count.ConstructorsQuotient Count.ConstructorsDerived Count.ConstructorsDict.
+From CSS Require Import Gen.ConstructorParamMap Gen.UnionParamMap Gen.QuotientParamMap Count.GenBridgeParamMap.
+From CSS Require Import Gen.PathDictInitial Gen.PathDictCompose Gen.PathDictInvert Gen.PathDictDuplicates Count.GenBridgePathDict.
 Import ListNotations.
 Open Scope Z_scope.
 
@@ -686,6 +688,50 @@ Example C09_path_dictionary_value :
             (Ok (id_dict [10])) = Err E_NOTIMPL.
 Proof. repeat split; vm_compute; reflexivity. Qed.
 
+(* ------------------------------------------------------------ tie to the source (translator)
+   The three parameter-map functions of the model ARE the source functions
+   Constructor.param_map (base.py), DisjointUnion.param_map (disjoint.py) and
+   Quotient.param_map (cartesian.py), re-translated into Gen/ConstructorParamMap.v,
+   Gen/UnionParamMap.v, Gen/QuotientParamMap.v on every run: for ALL position maps,
+   sizes and parameter tuples (positions are naturals in the model: zpos embeds
+   them; an AssertionError is the result None of a generated definition). *)
+Theorem C09_param_map_is_source : forall pm num param,
+  sum_param_map pm num param =
+  ConstructorParamMap.constructor_param_map (zpos pm) (Z.of_nat num) param.
+Proof. exact sum_param_map_is_source. Qed.
+
+Theorem C09_union_param_map_is_source : forall pm num param,
+  du_param_map pm num param =
+  res_of_option (UnionParamMap.union_param_map (zpos pm) (Z.of_nat num) param).
+Proof. exact du_param_map_is_source. Qed.
+
+Theorem C09_quotient_param_map_is_source : forall pm num param,
+  q_param_map pm num param =
+  res_of_option (QuotientParamMap.quotient_param_map (zpos pm) (Z.of_nat num) param).
+Proof. exact q_param_map_is_source. Qed.
+
+(* One rule of an equivalence path composes the dictionary by the source's expressions
+   (EquivalencePathRule.constructor, strategies/rule.py; Gen/PathDictCompose.v,
+   Gen/PathDictInvert.v, Gen/PathDictDuplicates.v), for every dictionary e with distinct
+   keys (a Python dictionary); the path starts from the source's identity dictionary
+   (Gen/PathDictInitial.v). *)
+Theorem C09_path_dictionary_is_source : forall e rev pn kids idx, NoDup (map fst e) ->
+  path_dict_step (Ok e) (rev, pn, kids, idx) =
+  match first_nonempty kids with
+  | None => Err E_ASSERT
+  | Some ci =>
+      let d := k_dict (nth ci kids default_kid) in
+      if rev then
+        (if PathDictDuplicates.path_dict_duplicates d then Err E_NOTIMPL
+         else Ok (PathDictCompose.path_dict_compose e (PathDictInvert.path_dict_invert d)))
+      else Ok (PathDictCompose.path_dict_compose e d)
+  end.
+Proof. exact path_dict_step_is_source. Qed.
+
+Theorem C09_path_initial_is_source : forall names, NoDup names ->
+  id_dict names = PathDictInitial.path_dict_initial names.
+Proof. exact path_initial_is_source. Qed.
+
 Print Assumptions C09_param_maps_agree.
 Print Assumptions C09_union.
 Print Assumptions C09_product.
@@ -700,3 +746,8 @@ Print Assumptions C09_complement_round_trip.
 Print Assumptions C09_path.
 Print Assumptions C09_path_reverse_link.
 Print Assumptions C09_path_dictionary.
+Print Assumptions C09_param_map_is_source.
+Print Assumptions C09_union_param_map_is_source.
+Print Assumptions C09_quotient_param_map_is_source.
+Print Assumptions C09_path_dictionary_is_source.
+Print Assumptions C09_path_initial_is_source.
